@@ -118,6 +118,9 @@ def c10_classifier():
         if impl.split()[0] in ("panic", "costpanic"):
             info["prop_fail"] = "builder-panic"
             info["why"] = "a dictionary builder panicked on: " + cor
+        elif impl.startswith("ok") and "ids-out-of-range" in mobs:
+            info["prop_fail"] = "out-of-range-id-accepted"
+            info["why"] = "the builder accepted a lexicon / unk.def entry whose connection id lies outside the connector"
         elif impl.split()[0] != mobs.split()[0] or (impl.startswith("ok") and impl != mobs):
             info["corr_fail"] = "builder outcome differs from the model"
         return info
